@@ -35,7 +35,9 @@ import (
 const rule = "case = rapid-drawn build program (put/del/tx/batch/flush/reopen and, unless excluded, 'retire' = flush everything then drop the " +
 	"flushed log files so reads are served from SSTables only) over small memtables, followed by 20-60 drawn queries: full scan, range " +
 	"[start,end) with bounds present/absent/between keys/equal/inverted/nil, Seek(t)+Next*k, SeekToLast, the same through BoundedIterator " +
-	"and prefix/suffix FilteredIterator as the service composes them, KevoService.Scan/TxScan called directly with prefix/suffix/range/limit options that have a documented meaning, and inside read-write transactions with uncommitted puts/deletes " +
+	"and prefix/suffix FilteredIterator as the service composes them, sessions on ONE re-used iterator (Seek/SeekToFirst/SeekToLast/Next in any order, " +
+	"each followed by reading k entries), read-write transactions that alternate writes (often re-writing their own keys) and scans, a bulk-load " +
+	"class that produces SSTables of 3 and more data blocks, KevoService.Scan/TxScan called directly with prefix/suffix/range/limit options that have a documented meaning, and inside read-write transactions with uncommitted puts/deletes " +
 	"overlaid and read-only transactions; oracle = sorted live keys of the map model (with overlay) filtered by the query, iterators read " +
 	"the way KevoService.Scan reads them (tombstones skipped); concurrent phase: scans next to writers of a disjoint key set must be strictly " +
 	"ascending, duplicate-free and contain every stable key. non-trivial = at least 3 layers (memtables+SSTables) hold data and at least " +
@@ -59,6 +61,25 @@ type Query struct {
 	Pre   []byte       `json:"pre,omitempty"`
 	Suf   []byte       `json:"suf,omitempty"`
 	Over  []drive.TxOp `json:"over,omitempty"` // uncommitted writes of the read-write transaction
+	// kind "session": ONE iterator (full, or the range [A,B) when either is >= 0)
+	// is re-positioned and read repeatedly
+	Ops []SessOp `json:"ops,omitempty"`
+	// kind "txsession" (via rwtx): ONE read-write transaction alternates between
+	// more writes and queries; the overlay accumulates
+	Phases []Phase `json:"phases,omitempty"`
+}
+
+// SessOp is one operation on a re-used iterator.
+type SessOp struct {
+	Op string `json:"op"` // seek | first | last | next
+	T  int    `json:"t"`  // seek target index
+	N  int    `json:"n"`  // live entries to read afterwards
+}
+
+// Phase is one step of a transaction session: writes, then a query.
+type Phase struct {
+	Over []drive.TxOp `json:"over,omitempty"`
+	Q    Query        `json:"q"`
 }
 
 // Case is a build program plus queries.
@@ -209,15 +230,22 @@ func runQuery(e *engine.EngineFacade, m drive.Model, p *drive.Program, tg [][]by
 	if q.Kind == "svc" {
 		return runSvcQuery(e, m, p, tg, q)
 	}
-	bound := func(i int) []byte {
-		if i < 0 || i >= len(tg) {
-			return nil
-		}
-		return tg[i]
-	}
-	a, b := bound(q.A), bound(q.B)
 	var over []drive.TxOp
 	var tx txLike
+	apply := func(t txLike, ops []drive.TxOp) *failure {
+		for _, o := range ops {
+			var err error
+			if o.Op == "put" {
+				err = t.Put(p.Keys[o.K], o.V.Bytes())
+			} else {
+				err = t.Delete(p.Keys[o.K])
+			}
+			if err != nil {
+				return &failure{"tx-write-error", err.Error()}
+			}
+		}
+		return nil
+	}
 	if q.Via == "rotx" || q.Via == "rwtx" {
 		t, err := e.BeginTransaction(q.Via == "rotx")
 		if err != nil {
@@ -227,19 +255,42 @@ func runQuery(e *engine.EngineFacade, m drive.Model, p *drive.Program, tg [][]by
 		defer t.Rollback()
 		if q.Via == "rwtx" {
 			over = q.Over
-			for _, o := range over {
-				var err error
-				if o.Op == "put" {
-					err = t.Put(p.Keys[o.K], o.V.Bytes())
-				} else {
-					err = t.Delete(p.Keys[o.K])
-				}
-				if err != nil {
-					return &failure{"tx-write-error", err.Error()}
-				}
+			if f := apply(t, over); f != nil {
+				return f
 			}
 		}
 	}
+	if q.Kind == "txsession" {
+		if tx == nil || q.Via != "rwtx" {
+			return &failure{"bad-query", "txsession needs via=rwtx"}
+		}
+		for pi := range q.Phases {
+			ph := &q.Phases[pi]
+			if f := apply(tx, ph.Over); f != nil {
+				return f
+			}
+			over = append(over, ph.Over...)
+			sub := ph.Q
+			sub.Via = "rwtx"
+			if f := execQuery(e, tx, over, m, p, tg, &sub); f != nil {
+				return &failure{f.sig + "/txsession", fmt.Sprintf("phase %d (%d uncommitted writes so far, %s): %s", pi, len(over), briefQ(&sub, tg), f.msg)}
+			}
+		}
+		return nil
+	}
+	return execQuery(e, tx, over, m, p, tg, q)
+}
+
+// execQuery runs one query on the engine (tx == nil) or inside the given
+// transaction, whose uncommitted writes so far are over.
+func execQuery(e *engine.EngineFacade, tx txLike, over []drive.TxOp, m drive.Model, p *drive.Program, tg [][]byte, q *Query) *failure {
+	bound := func(i int) []byte {
+		if i < 0 || i >= len(tg) {
+			return nil
+		}
+		return tg[i]
+	}
+	a, b := bound(q.A), bound(q.B)
 	full := func() (iterator.Iterator, *failure) {
 		if tx != nil {
 			return tx.NewIterator(), nil
@@ -369,6 +420,86 @@ func runQuery(e *engine.EngineFacade, m drive.Model, p *drive.Program, tg [][]by
 			want = want[:limit]
 		}
 		return cmp(got, f, want)
+	case "session":
+		var it iterator.Iterator
+		var f *failure
+		keep := func(k []byte) bool { return true }
+		if q.B >= 0 || q.A >= 0 {
+			it, f = rng(a, b)
+			keep = inRange
+		} else {
+			it, f = full()
+		}
+		if f != nil {
+			return f
+		}
+		want := expected(m, p, over, keep)
+		pos := -1 // index in want of the next live entry the iterator must yield; -1 = not positioned
+		for oi, op := range q.Ops {
+			octx := fmt.Sprintf("%s op %d (%s)", ctx, oi, op.Op)
+			switch op.Op {
+			case "first":
+				it.SeekToFirst()
+				pos = 0
+			case "seek":
+				t := bound(op.T)
+				if t == nil {
+					it.SeekToFirst()
+					pos = 0
+					break
+				}
+				ok := it.Seek(t)
+				if ok != it.Valid() {
+					return &failure{"seek-result@" + ctx, fmt.Sprintf("%s: Seek(%q) returned %v but Valid() is %v", octx, trunc(t), ok, it.Valid())}
+				}
+				if it.Valid() && bytes.Compare(it.Key(), t) < 0 {
+					return &failure{"seek-before-target@" + ctx, fmt.Sprintf("%s: Seek(%q) on the re-used iterator landed on smaller key %q", octx, trunc(t), trunc(it.Key()))}
+				}
+				pos = sort.Search(len(want), func(i int) bool { return bytes.Compare(want[i].k, t) >= 0 })
+			case "last":
+				it.SeekToLast()
+				if f := checkLast(it, want, keep, ctx); f != nil {
+					f.msg = octx + ": " + f.msg
+					return f
+				}
+				// continue from the greatest live key when the iterator stands on it
+				pos = len(want)
+				if it.Valid() && !it.IsTombstone() {
+					pos = len(want) - 1
+				}
+			case "next":
+				if pos < 0 {
+					continue // not positioned yet: nothing defined to continue from
+				}
+			}
+			if op.N <= 0 {
+				continue
+			}
+			got, f := drain(it, op.N)
+			if f != nil {
+				return &failure{f.sig + "@" + ctx, octx + ": " + f.msg}
+			}
+			w := want[min(pos, len(want)):]
+			if len(w) > op.N {
+				w = w[:op.N]
+			}
+			if d := equalKV(got, w); d != "" {
+				return &failure{"content@" + ctx, fmt.Sprintf("%s, reading %d entries from position %d of %d: %s", octx, op.N, pos, len(want), d)}
+			}
+			// drain stops ON the last entry it returned when the limit was reached,
+			// behind the end otherwise
+			if len(got) == op.N {
+				pos += len(got) - 1
+				// step off the entry already returned so that a following "next" continues behind it
+				if it.Valid() {
+					it.Next()
+				}
+				pos++
+			} else {
+				pos = len(want)
+			}
+		}
+		return nil
 	case "last":
 		var it iterator.Iterator
 		var f *failure
@@ -384,6 +515,14 @@ func runQuery(e *engine.EngineFacade, m drive.Model, p *drive.Program, tg [][]by
 		}
 		it.SeekToLast()
 		want := expected(m, p, over, keep)
+		return checkLast(it, want, keep, ctx)
+	}
+	return &failure{"bad-query", q.Kind}
+}
+
+// checkLast judges the position of an iterator right after SeekToLast.
+func checkLast(it iterator.Iterator, want []kv, keep func(k []byte) bool, ctx string) *failure {
+	{
 		if !it.Valid() {
 			if len(want) > 0 {
 				return &failure{"last-invalid@" + ctx, fmt.Sprintf("SeekToLast is invalid but %d live keys exist (greatest %q)", len(want), trunc(want[len(want)-1].k))}
@@ -413,7 +552,6 @@ func runQuery(e *engine.EngineFacade, m drive.Model, p *drive.Program, tg [][]by
 		}
 		return nil
 	}
-	return &failure{"bad-query", q.Kind}
 }
 
 // scanStream collects what KevoService.Scan / TxScan send.
@@ -612,6 +750,29 @@ func runCase(c *Case) (*failure, []string, bool) {
 	if multi {
 		classes = append(classes, "key_in_several_layers")
 	}
+	if ents, err := os.ReadDir(dir + "/sst"); err == nil {
+		for _, de := range ents {
+			if fi, err := de.Info(); err == nil && fi.Size() >= 3*64*1024 {
+				classes = append(classes, "sstable_with_3+_blocks")
+				break
+			}
+		}
+	}
+	hasSess, hasTxSess := false, false
+	for qi := range c.Queries {
+		switch c.Queries[qi].Kind {
+		case "session":
+			hasSess = true
+		case "txsession":
+			hasTxSess = true
+		}
+	}
+	if hasSess {
+		classes = append(classes, "reused_iterator_session")
+	}
+	if hasTxSess {
+		classes = append(classes, "tx_write_scan_write_scan")
+	}
 	layers := 1 + imm + sst
 	nt := layers >= 3 && multi
 	tg := targets(p.Keys)
@@ -638,7 +799,20 @@ func briefQ(q *Query, tg [][]byte) string {
 		}
 		return fmt.Sprintf("%q", trunc(tg[i]))
 	}
-	return fmt.Sprintf("{%s via %s a=%s b=%s n=%d pre=%q suf=%q over=%d}", q.Kind, q.Via, b(q.A), b(q.B), q.NextN, q.Pre, q.Suf, len(q.Over))
+	extra := ""
+	if q.Kind == "session" {
+		for _, o := range q.Ops {
+			if o.Op == "seek" {
+				extra += fmt.Sprintf(" seek(%s)+%d", b(o.T), o.N)
+			} else {
+				extra += fmt.Sprintf(" %s+%d", o.Op, o.N)
+			}
+		}
+	}
+	if q.Kind == "txsession" {
+		extra = fmt.Sprintf(" phases=%d", len(q.Phases))
+	}
+	return fmt.Sprintf("{%s via %s a=%s b=%s n=%d pre=%q suf=%q over=%d%s}", q.Kind, q.Via, b(q.A), b(q.B), q.NextN, q.Pre, q.Suf, len(q.Over), extra)
 }
 
 // runConc: scanners iterate while writers put/delete keys of a disjoint key
@@ -727,10 +901,56 @@ func genCase(t *rapid.T) Case {
 	if rapid.IntRange(0, 3).Draw(t, "smallmt") != 0 {
 		p.Cfg.MemTableSize = rapid.SampledFrom([]int64{256, 512, 1024}).Draw(t, "mt")
 	}
+	// a quarter of the cases: a bulk load first, so that one SSTable has many
+	// (>= 3) data blocks (a block is closed at 64 KiB): 12-40 keys with
+	// 12-48 KiB values in one memtable, flushed, logs dropped, reopened
+	if ev.Flag("sst_only_reads") && rapid.IntRange(0, 3).Draw(t, "multiblock") == 0 {
+		p.Cfg.MemTableSize = 32 << 20
+		n := rapid.IntRange(12, 40).Draw(t, "mb_keys")
+		for len(p.Keys) < n {
+			p.Keys = append(p.Keys, []byte(fmt.Sprintf("mb-%03d", len(p.Keys))))
+		}
+		var pre []drive.Step
+		for k := range p.Keys {
+			pre = append(pre, drive.Step{Op: "put", K: k, V: &drive.Val{Len: rapid.IntRange(12*1024, 48*1024).Draw(t, "mb_vlen"), Tag: uint32(800000 + k)}})
+		}
+		pre = append(pre, drive.Step{Op: "retire"}, drive.Step{Op: "reopen"})
+		if len(p.Steps) > 12 {
+			p.Steps = p.Steps[:12]
+		}
+		p.Steps = append(pre, p.Steps...)
+	}
 	tg := targets(p.Keys)
 	nq := rapid.IntRange(20, 60).Draw(t, "nq")
 	c := Case{Program: p}
-	kinds := []string{"full", "range", "range", "seek", "seek", "seek", "last", "bounded", "prefix", "suffix", "presuf", "svc", "svc", "svc"}
+	kinds := []string{"full", "range", "range", "seek", "seek", "seek", "last", "bounded", "prefix", "suffix", "presuf", "svc", "svc", "svc",
+		"session", "session", "session", "txsession", "txsession"}
+	overlay := func(label string, base int) []drive.TxOp {
+		var out []drive.TxOp
+		no := rapid.IntRange(0, 4).Draw(t, label)
+		for j := 0; j < no; j++ {
+			k := rapid.IntRange(0, len(p.Keys)-1).Draw(t, "ok")
+			if rapid.Bool().Draw(t, "odel") {
+				out = append(out, drive.TxOp{Op: "del", K: k})
+			} else {
+				out = append(out, drive.TxOp{Op: "put", K: k, V: gen.Value(t, uint32(base+j), gen.ValOpts{})})
+			}
+		}
+		return out
+	}
+	session := func(q *Query) {
+		if rapid.IntRange(0, 2).Draw(t, "sessfull") != 0 {
+			q.A, q.B = -1, -1
+		}
+		n := rapid.IntRange(2, 8).Draw(t, "nsess")
+		for j := 0; j < n; j++ {
+			q.Ops = append(q.Ops, SessOp{
+				Op: rapid.SampledFrom([]string{"seek", "seek", "seek", "seek", "first", "last", "next"}).Draw(t, "sop"),
+				T:  rapid.IntRange(0, len(tg)-1).Draw(t, "st"),
+				N:  rapid.SampledFrom([]int{0, 1, 1, 2, 3, 6}).Draw(t, "sn"),
+			})
+		}
+	}
 	for i := 0; i < nq; i++ {
 		q := Query{
 			Kind: rapid.SampledFrom(kinds).Draw(t, "qkind"),
@@ -739,6 +959,48 @@ func genCase(t *rapid.T) Case {
 			B:    rapid.IntRange(-1, len(tg)-1).Draw(t, "b"),
 		}
 		switch q.Kind {
+		case "session":
+			session(&q)
+		case "txsession":
+			// one read-write transaction: writes, query, more writes (often to the
+			// SAME keys: overwrite, delete, re-put), query again, ...
+			q.Via = "rwtx"
+			q.A, q.B = -1, -1
+			np := rapid.IntRange(2, 5).Draw(t, "nphases")
+			var touched []int
+			for j := 0; j < np; j++ {
+				ph := Phase{}
+				if j > 0 && len(touched) > 0 && rapid.IntRange(0, 2).Draw(t, "rewrite") != 0 {
+					// only keys the transaction already wrote
+					m := rapid.IntRange(1, 3).Draw(t, "nrew")
+					for x := 0; x < m; x++ {
+						k := touched[rapid.IntRange(0, len(touched)-1).Draw(t, "rk")]
+						if rapid.Bool().Draw(t, "rdel") {
+							ph.Over = append(ph.Over, drive.TxOp{Op: "del", K: k})
+						} else {
+							ph.Over = append(ph.Over, drive.TxOp{Op: "put", K: k, V: gen.Value(t, uint32(700000+i*100+j*10+x), gen.ValOpts{})})
+						}
+					}
+				} else {
+					ph.Over = overlay("nphover", 600000+i*100+j*10)
+				}
+				for _, o := range ph.Over {
+					touched = append(touched, o.K)
+				}
+				sub := Query{Kind: rapid.SampledFrom([]string{"full", "full", "range", "seek", "session", "last"}).Draw(t, "phkind"),
+					A: rapid.IntRange(-1, len(tg)-1).Draw(t, "pa"), B: rapid.IntRange(-1, len(tg)-1).Draw(t, "pb")}
+				switch sub.Kind {
+				case "seek":
+					sub.NextN = rapid.IntRange(0, 4).Draw(t, "pnextn")
+					sub.B = -1
+				case "session":
+					session(&sub)
+				case "last":
+					sub.A, sub.B = -1, -1
+				}
+				ph.Q = sub
+				q.Phases = append(q.Phases, ph)
+			}
 		case "seek":
 			q.NextN = rapid.IntRange(0, 4).Draw(t, "nextn")
 			if rapid.IntRange(0, 2).Draw(t, "seekrange") != 0 {
@@ -780,15 +1042,7 @@ func genCase(t *rapid.T) Case {
 			q.NextN = rapid.SampledFrom([]int{0, 0, 1, 2, 5}).Draw(t, "limit")
 		}
 		if q.Via == "rwtx" {
-			no := rapid.IntRange(0, 4).Draw(t, "nover")
-			for j := 0; j < no; j++ {
-				k := rapid.IntRange(0, len(p.Keys)-1).Draw(t, "ok")
-				if rapid.Bool().Draw(t, "odel") {
-					q.Over = append(q.Over, drive.TxOp{Op: "del", K: k})
-				} else {
-					q.Over = append(q.Over, drive.TxOp{Op: "put", K: k, V: gen.Value(t, uint32(900000+i*10+j), gen.ValOpts{})})
-				}
-			}
+			q.Over = overlay("nover", 900000+i*10)
 		}
 		c.Queries = append(c.Queries, q)
 	}
